@@ -32,12 +32,12 @@ type Op struct {
 type Case struct {
 	Limit     int          `json:"limit"`
 	Progs     [][]Op       `json:"progs"`
-	Mode      string       `json:"mode"`                 // ctl (one atomic operation at a time) | free (Go scheduler)
-	Picks     []int        `json:"picks,omitempty"`      // ctl: goroutine to run at decision k (ignored when not enabled)
-	Hold      string       `json:"hold,omitempty"`       // ctl: goroutines parked at this point run only when nothing else can
+	Mode      string       `json:"mode"`            // ctl (one atomic operation at a time) | free (Go scheduler)
+	Picks     []int        `json:"picks,omitempty"` // ctl: goroutine to run at decision k (ignored when not enabled)
+	Hold      string       `json:"hold,omitempty"`  // ctl: goroutines parked at this point run only when nothing else can
 	SchedSeed uint64       `json:"sched_seed"`
-	Holds     []sched.Hold `json:"holds,omitempty"`      // free
-	Perturb   int          `json:"perturb,omitempty"`    // free
+	Holds     []sched.Hold `json:"holds,omitempty"`   // free
+	Perturb   int          `json:"perturb,omitempty"` // free
 	Origin    string       `json:"origin,omitempty"`
 }
 
@@ -60,14 +60,15 @@ type mth struct { // mirror of one model thread
 }
 
 type gstate struct {
-	id       int
-	g        *sched.G
-	stack    []*mth
-	acqCtx   context.Context
-	acqCancl context.CancelFunc
-	acqRes   int // result of the last Acquire: 0 none yet, 1 acquired, 2 cancelled, 3 no limiter
-	acqLater bool // the seed may cancel this Acquire while it waits
-	blkSeen  bool
+	id        int
+	g         *sched.G
+	stack     []*mth
+	acqCtx    context.Context
+	acqCancl  context.CancelFunc
+	acqRes    int  // result of the last Acquire: 0 none yet, 1 acquired, 2 cancelled, 3 no limiter
+	acqLater  bool // the seed may cancel this Acquire while it waits
+	blkSeen   bool
+	lastPoint string
 }
 
 type scope struct {
@@ -194,7 +195,7 @@ func (e *env) runOps(gs *gstate, sc scope, ops []Op) {
 			if e.ctl != nil {
 				e.ctl.Park(gs.g, "work", nil)
 			} else {
-				time.Sleep(20 * time.Microsecond)
+				e.free.Handler("work")
 			}
 		case "rel":
 			if sc.rel != nil {
@@ -645,14 +646,37 @@ func (e *env) runCtl() bool {
 
 func (e *env) hookFree(point string, args ...interface{}) {
 	if gs := e.cur(); gs != nil {
+		e.mu.Lock()
 		switch point {
 		case "limiter.acquire.acquired":
 			gs.acqRes = 1
 		case "limiter.acquire.cancelled":
 			gs.acqRes = 2
+			e.stats["acquire-returned-on-ctx-done"]++
 		case "limiter.acquire.nolimiter":
 			gs.acqRes = 3
+		case "limiter.block.f":
+			if gs.lastPoint == "limiter.block.cas" {
+				e.stats["block-cas-failed"]++
+			} else {
+				e.stats["block-gave-up-token"]++
+			}
+		case "limiter.release.done":
+			if gs.lastPoint == "limiter.release.swap" {
+				e.stats["release-found-not-acquired"]++
+			}
+		case "limiter.block.giveback":
+			e.stats["reacquire-cas-failed"]++
+		case "limiter.block.done":
+			if gs.lastPoint == "limiter.block.reacquire" {
+				e.stats["reacquire-cas-failed"]++
+			}
 		}
+		if point != "work" {
+			gs.lastPoint = point
+		}
+		e.points[point] = true
+		e.mu.Unlock()
 	}
 	e.free.Handler(point, args...)
 }
@@ -711,8 +735,8 @@ func (e *env) runFree() bool {
 			go func() { defer e.wg.Done(); rel() }()
 			acted = true
 		}
-		if !acted && idle > 250 {
-			e.fail("goroutine-never-returns", fmt.Sprintf("no progress for 500 ms, len(ch)=%d, every Acquire cancelled and every holder released", e.length()))
+		if !acted && idle > 1500 {
+			e.fail("goroutine-never-returns", fmt.Sprintf("no progress for 3 s, len(ch)=%d, every Acquire cancelled and every holder released", e.length()))
 			return false
 		}
 		if acted {
@@ -860,10 +884,7 @@ func genAcq(r *vh.Rng, depth int, budget *int) Op {
 }
 
 func genCase(r *vh.Rng) *Case {
-	c := &Case{Limit: r.Intn(5), Mode: "ctl", SchedSeed: r.U64() >> 1, Origin: "random"}
-	if r.Chance(12) {
-		c.Limit = r.Intn(2)
-	}
+	c := &Case{Limit: []int{0, 1, 1, 1, 1, 1, 2, 2, 2, 2, 2, 3, 3, 3, 4, 4}[r.Intn(16)], Mode: "ctl", SchedSeed: r.U64() >> 1, Origin: "random"}
 	ng := 1 + r.Intn(8)
 	budget := 10 + r.Intn(14)
 	for i := 0; i < ng; i++ {
@@ -878,6 +899,19 @@ func genCase(r *vh.Rng) *Case {
 			p = append(p, genAcq(r, 2, &b))
 		}
 		c.Progs = append(c.Progs, p)
+	}
+	if r.Chance(22) {
+		// the same kind of program under the real Go scheduler, with seeded perturbation and holds
+		c.Mode, c.Origin = "free", "random-free"
+		c.Perturb = 10 + r.Intn(50)
+		pts := []string{"limiter.block.send", "limiter.block.cas2", "limiter.block.reacquire", "limiter.release.recv", "limiter.block.recv",
+			"limiter.release.swap", "limiter.block.giveback", "limiter.block.cas", "limiter.acquire.select", "limiter.acquire.acquired",
+			"limiter.release.done", "limiter.block.done", "work"}
+		for k := r.Intn(3); k > 0; k-- {
+			c.Holds = append(c.Holds, sched.Hold{Point: r.Pick(pts), UntilPoint: r.Pick(pts), UntilCount: 1 + r.Intn(3),
+				Arrived: r.Chance(30), TimeoutUs: 200 + r.Intn(800)})
+		}
+		return c
 	}
 	if r.Chance(55) {
 		c.Hold = r.Pick([]string{"limiter.block.send", "limiter.block.cas2", "limiter.block.reacquire", "limiter.release.recv",
@@ -918,6 +952,27 @@ func genWitness(r *vh.Rng) *Case {
 	picks = append(picks, r1, r1, r1) // release of H: swap, (recv)
 	picks = append(picks, g3, g3)     // G3
 	c.Picks = picks
+	return c
+}
+
+// the same witness under the real scheduler, forced by holds instead of picks
+func genWitnessFree(r *vh.Rng) *Case {
+	L := 1 + r.Intn(3)
+	c := &Case{Limit: L, Mode: "free", SchedSeed: r.U64() >> 1, Origin: "witness-f11-free", Perturb: r.Intn(20)}
+	for i := 0; i < L-1; i++ {
+		c.Progs = append(c.Progs, []Op{{K: "acq", Body: []Op{{K: "work"}}}})
+	}
+	c.Progs = append(c.Progs, []Op{{K: "acq", Leak: true, Body: []Op{
+		{K: "go", Body: []Op{{K: "rel"}, {K: "acq", Body: []Op{{K: "work"}}}}},
+		{K: "tr", Body: []Op{{K: "go", Body: []Op{{K: "acq", Body: []Op{{K: "work"}}}}}}},
+	}}})
+	to := 20000
+	c.Holds = []sched.Hold{
+		{Point: "limiter.block.reacquire", UntilPoint: "limiter.acquire.acquired", UntilCount: L + 1, TimeoutUs: to},
+		{Point: "limiter.release.swap", UntilPoint: "limiter.block.send", UntilCount: 1, Arrived: true, TimeoutUs: to},
+		{Point: "limiter.block.send", UntilPoint: "limiter.release.done", UntilCount: 1, TimeoutUs: to},
+		{Point: "work", UntilPoint: "limiter.acquire.acquired", UntilCount: L + 2, TimeoutUs: to},
+	}
 	return c
 }
 
@@ -962,8 +1017,10 @@ func main() {
 		for i := 0; i < o.N; i++ {
 			cr := r.Fork()
 			switch k := cr.Intn(100); {
-			case k < 8:
+			case k < 7:
 				cases = append(cases, genWitness(cr))
+			case k < 10:
+				cases = append(cases, genWitnessFree(cr))
 			default:
 				cases = append(cases, genCase(cr))
 			}
@@ -980,7 +1037,13 @@ func main() {
 		run.WriteCasesV(fmt.Sprintf("cases_%d.v", start), []string{"Limiter.Model"}, "", "mismatches_from_sparse", 0, terms)
 		terms = nil
 	}
+	nFail := 0
 	for idx, c := range cases {
+		if nFail >= 40 {
+			// failing runs wait for time-outs; enough evidence has been collected
+			run.Extra["stopped_early_after_failures"] = nFail
+			break
+		}
 		if c.Mode == "" {
 			c.Mode = "ctl"
 		}
@@ -990,7 +1053,11 @@ func main() {
 		// the case as it actually ran (picks recorded), for replay files
 		rc := *c
 		rc.Picks = e.picks
-		nontrivial := len(c.Progs) >= 2 && len(e.events) >= 12 &&
+		nev := len(e.events)
+		if e.free != nil {
+			nev = e.free.NumEvents()
+		}
+		nontrivial := len(c.Progs) >= 2 && nev >= 12 &&
 			(e.stats["block-cas-failed"]+e.stats["reacquire-cas-failed"]+e.stats["release-found-not-acquired"]+
 				e.stats["cancel-while-waiting"]+e.stats["forced-release-on-deadlock"] > 0)
 		kb, _ := json.Marshal(rc)
@@ -998,7 +1065,8 @@ func main() {
 		run.Hist("origin:" + strings.SplitN(c.Origin, ":", 2)[0])
 		run.Hist(fmt.Sprintf("limit:%d", c.Limit))
 		run.Hist(fmt.Sprintf("goroutines:%d", e.nG))
-		run.Hist(fmt.Sprintf("events:%d0s", len(e.events)/10))
+		run.Hist(fmt.Sprintf("events:%d0s", nev/10))
+		run.Hist("mode:" + c.Mode)
 		run.Hist(fmt.Sprintf("max-running-minus-limit:%d", e.maxRun-c.Limit))
 		for k, v := range e.stats {
 			if v > 0 {
@@ -1006,10 +1074,11 @@ func main() {
 			}
 		}
 		if nontrivial {
-			run.Sample(map[string]interface{}{"case": rc, "events": len(e.events), "max_running": e.maxRun, "stats": e.stats})
+			run.Sample(map[string]interface{}{"case": rc, "events": nev, "max_running": e.maxRun, "stats": e.stats})
 		}
 		if e.failSig != "" {
 			run.Fail(idx, e.failSig, e.failDet, rc)
+			nFail++
 		}
 		if c.Mode == "ctl" {
 			if !e.mirrorOK {
